@@ -269,3 +269,16 @@ def series_oracle_with_derivative(key, x, s, c, tan4=None, atan_x=None, squared=
     if squared:
         return r.v, r.d / (2 * x)
     return r.v, r.d
+
+
+# limits of the series keys at x = 0 (trusted: leading Maclaurin coefficient); None = pole
+SERIES_LIMIT = {
+    "cos(x)": Fraction(1), "sin(x)/x": Fraction(1), "x/sin(x)": Fraction(1), "(1 - cos(x))/x": Fraction(0),
+    "(1 - cos(x))/x^2": Fraction(1, 2), "(x - sin(x))/x^3": Fraction(1, 6),
+    "(1 - x*sin(x)/(2*(1 - cos(x))))/x^2": Fraction(1, 12), "(-x^2/2 - cos(x) + 1)/x^2": Fraction(0),
+    "(x^2/2 + cos(x) - 1)/x^4": Fraction(1, 24), "1/x^2": None, "(2 - x cos(x))/(2 x^2)": None,
+    "1/x^2 + sin(x)/(2 x (cos(x) - 1))": Fraction(1, 12), "(x^2 + 2 cos(x) - 2)/(2 x^4)": Fraction(1, 24),
+    "(x cos(x) + 2 x - 3 sin(x))/(2 x^5)": Fraction(1, 120),
+    "(x^2 + x sin(x) + 4 cos(x) - 4)/(2 x^6)": Fraction(1, 720),
+    "(2 - 2 cos(x) - x sin(x))/(2 x^4))": Fraction(1, 24), "tan(x/4)/x": Fraction(1, 4), "4 atan(x)/x": Fraction(4),
+}
